@@ -127,6 +127,9 @@ impl<S: Stream + Unpin> Stream for MergeUnbounded<S> {
             let poll = Pin::new(&mut groups[*poll_next]).poll_next(cx);
             match poll {
                 Poll::Ready(Some(x)) => {
+                    // Start the next poll at the following group: a group with a stream that is
+                    // always ready must not keep the groups after it from ever being polled.
+                    *poll_next += 1;
                     return Poll::Ready(Some(x));
                 }
                 Poll::Ready(None) => {
